@@ -10,6 +10,7 @@ OkLine(r) ==
        /\ r.keys_eq /\ r.enc_eq /\ r.key_eq /\ r.nonce_eq /\ r.exp_eq /\ r.ct_eq /\ r.exports_eq
        /\ (r.dev = "none" => r.recv_ok /\ r.opens /\ r.rexport_eq /\ r.opens_all)
        /\ (r.dev # "none" => ~r.opens /\ (r.recv_ok => ~r.rexport_eq))
+       /\ (r.dev = "pkS-low-order" => ~r.recv_ok)      \* an all-zero Diffie-Hellman value with the sender identity is an error (RFC 9180 7.1.4)
 INSTANCE LinesTrace WITH Ok <- OkLine
 ASSUME TLCSet(1, 0) /\ TLCSet(2, {}) /\ TLCSet(3, ndJsonDeserialize("trace.ndjson"))
 ====
